@@ -54,8 +54,10 @@ LEVEL_TEXT = (
     "C16_ctrl_write_stall_bound, C16_stall_ends_at_deadline, C16_dropped_at_deadline, C16_unset_* (None, and only None, means "
     "unbounded) and zero-is-zero-seconds everywhere: C16_idle_zero_drops_at_once / C16_idle_zero_release (control reads), "
     "C16_zero_socket_ends_at_greeting / C16_zero_socket_ctrl_immediate (control writes), C16_zero_socket_data_immediate (data "
-    "reads/writes), C16_zero_wait_immediate_425 (data-connection wait). The wiring the theorems speak about is re-derived from "
-    "the regenerated source facts (C16_wiring_pasv/epsv and 9 structural obligations; the pre-repair `X or timeout` shape is "
+    "reads/writes), C16_zero_wait_immediate_425 (data-connection wait); C16_abort_ends_session / "
+    "_after_deadline / _released_by (a failure of the reader task -- undecodable command line, peer closing -- ends the session at "
+    "that instant unless a deadline did before). The wiring the theorems speak about is re-derived from "
+    "the regenerated source facts (C16_wiring_pasv/epsv and 10 structural obligations, among them C16_parse_command_total: parse_command returns a tuple or raises; the pre-repair `X or timeout` shape is "
     "translated to a different wiring, C16_or_shape_differs_at_zero, so a revert breaks the obligation). The tie to behaviour is "
     "sampled: exact agreement of model and real server in VIRTUAL time on the enumerated corpus. Wall-clock promptness "
     "(event-loop latency, OS timers, TCP) is runtime behaviour the model cannot exhibit; the property is therefore PARTIAL: "
